@@ -20,6 +20,7 @@ TRUSTED_BASE = ['export of the SPPF and instrumentation of the visitor classes b
                 'generic visitor model (termination, trace) and its output by a Python validity check of every tree',
                 'completeness of the forest built by the Earley engines is NOT proved (C20_forest_complete_full_statement): '
                 'it is compared with brute-force derivation enumeration on every case']
+ALLOWED_AXIOMS = []
 ASSUMPTIONS = ['finite forests; callbacks return finite lists (generators are materialised by the instrumentation)',
                'grammars without tree shaping for the derivation comparison (plain rule names, named terminals)',
                'string-literal terminals only (regexp terminals under the dynamic lexers: see finding F7 / C01)']
@@ -139,6 +140,9 @@ def walk_cases(ctx, root, p, w, out_cases, out_meta, cyclic, nontrivial, pick=No
             continue
         ctx.count('walk', key=(w.get('g'), w.get('text'), w.get('lexer'), w.get('hand'), name), nontrivial=nontrivial,
                   visitor=name, cyclic=cyclic, events=min(len(r['events']) // 10 * 10, 200))
+        msg = fc.trace_discipline(r['events'], r['single'])
+        if msg:
+            ctx.violation('walk-contract', dict(w, visitor=name), True, '%s: %s' % (name, msg))
         ncyc = sum(1 for e in r['events'] if e[0] == 'cycle')
         if ncyc:
             ctx.count('walk-with-on_cycle', nontrivial=False)
@@ -213,7 +217,7 @@ def correspond(ctx):
     tcases, tmeta = [], []
     vcases, vmeta = [], []
     # ---- (a) acyclic: forest = derivations, TreeForestTransformer, is_ambiguous -------------------
-    n_gram = ctx.scale(45, 500) * (3 if ctx.widen else 1)
+    n_gram = ctx.scale(45, 250) * (3 if ctx.widen else 1)
     for gi in range(n_gram):
         g = fc.gen_grammar(rng, cyclic=False, empties=(rng.random() < 0.6))
         texts = select_texts(rng, g)
@@ -248,7 +252,7 @@ def correspond(ctx):
     import time; ctx.note('t_acyclic=%.1f' % (time.time()-ctx.t0))
     # ---- (b) cyclic forests: walks terminate, on_cycle, results are derivations -------------------
     corpus = [(g, t) for g, ts in CYCLIC_CORPUS for t in ts]
-    for _ in range(ctx.scale(40, 400) * (3 if ctx.widen else 1)):
+    for _ in range(ctx.scale(40, 200) * (3 if ctx.widen else 1)):
         g = fc.gen_grammar(rng, cyclic=True, empties=True, prios=(rng.random() < 0.5))
         for _ in range(3):
             corpus.append((g, fc.gen_input(rng, 3)))
@@ -289,8 +293,17 @@ def correspond(ctx):
         ctx.count('cyclic-handbuilt', key=name, nontrivial=True)
         walk_cases(ctx, root, None, dict(hand=name), vcases, vmeta, True, True)
     ctx.note('t_cyclic=%.1f tvol=%d vvol=%d' % (time.time()-ctx.t0, sum(map(len, tcases)), sum(map(len, vcases))))
-    # ---- the models on the same cases -----------------------------------------------------------------
-    bad, errs = ctx.coq_bad_indices('c20t', IMPORTS, 'tft_ok', tcases, chunk=100)
+    # ---- the models on the same cases (a seeded subset keeps the Coq volume within the budget; the Python
+    #      oracles above ran on every case) -----------------------------------------------------------------
+    def subset(cases, meta, cap):
+        if len(cases) <= cap:
+            return cases, meta
+        idx = sorted(rng.sample(range(len(cases)), cap))
+        return [cases[i] for i in idx], [meta[i] for i in idx]
+    if not ctx.widen:
+        tcases, tmeta = subset(tcases, tmeta, ctx.scale(160, 1500))
+        vcases, vmeta = subset(vcases, vmeta, ctx.scale(380, 3000))
+    bad, errs = ctx.coq_bad_indices('c20t', IMPORTS, 'tft_ok', tcases, chunk=40)
     for e in errs:
         ctx.violation('correspondence:coq-evaluation', {'no_longer_checks': 'c20 tft cases', 'detail': e}, False, e)
     TD = {'1': 'forest not well-formed', '2': 'priorities / children order', '3': 'TreeForestTransformer(resolve_ambiguity=False)',
@@ -303,7 +316,7 @@ def correspond(ctx):
             ctx.violation('correspondence:' + what, dict(w, no_longer_checks='model vs lark: ' + what), False,
                           'model and lark disagree on %s (diag %s); the Python oracle accepts this case' % (what, code))
     ctx.note('t_coq_tft=%.1f' % (time.time()-ctx.t0))
-    bad, errs = ctx.coq_bad_indices('c20v', IMPORTS, 'visit_ok_raw', vcases, chunk=100)
+    bad, errs = ctx.coq_bad_indices('c20v', IMPORTS, 'visit_ok_raw', vcases, chunk=64)
     for e in errs:
         ctx.violation('correspondence:coq-evaluation', {'no_longer_checks': 'c20 walk cases', 'detail': e}, False, e)
     VD = {'1': 'recursive model trace', '2': 'loop model trace', '3': 'loop model did not finish', '4': 'model stuck',
@@ -322,6 +335,23 @@ def correspond(ctx):
 def replay(ctx, case):
     from lark.exceptions import LarkError
     w = case.get('witness', case)
+
+    class Collect:
+        def __init__(self):
+            self.v = []
+
+        def violation(self, *a, **k):
+            self.v.append(a)
+
+        def count(self, *a, **k):
+            pass
+    if 'hand' in w:
+        for name, root in handbuilt_forests():
+            if name == w['hand']:
+                c = Collect()
+                walk_cases(c, root, None, w, [], [], True, True)
+                return bool(c.v)
+        return False
     if 'g' not in w:
         return False
     if w.get('visitor') or w.get('ambiguity'):
@@ -329,10 +359,9 @@ def replay(ctx, case):
             p = fc.mk(w['g'], w['lexer'], w.get('ambiguity', 'forest'), 'normal')
             root = fc.with_timeout(20, p.parse, w['text'])
             if w.get('visitor'):
-                v, o = [], []
-                walk = type('C', (), {'violation': lambda s, *a, **k: v.append(a), 'count': lambda s, *a, **k: None})()
-                walk_cases(walk, root, p, w, o, [], True, True)
-                return bool(v)
+                c = Collect()
+                walk_cases(c, root, p, w, [], [], True, True)
+                return bool(c.v)
             return False
         except fc.Timeout:
             return True
